@@ -4,6 +4,7 @@ import (
 	"fmt"
 	"os"
 	"runtime"
+	"runtime/debug"
 	"runtime/pprof"
 	"strings"
 	"sync"
@@ -213,8 +214,18 @@ func c23Opts(scs []*Scenario) []*Scenario {
 	return scs
 }
 
+// gcForC23: the explorers allocate fast over a live heap of a few MB; measured (two-versions scenario, loaded
+// machine) GOGC=100..200 is about twice as fast as the package default of 400 and far faster than a memory-limit
+// driven collector, because the small heap stays cache-hot and is not re-faulted from the OS.
+func gcForC23() {
+	if os.Getenv("VERIF_GC") == "" {
+		debug.SetGCPercent(100)
+	}
+}
+
 // MainC23 is the parent (B=4 build) of harness c23.
 func MainC23() {
+	gcForC23()
 	for _, a := range os.Args[1:] {
 		if a == "-dump" {
 			DumpPrefills()
@@ -286,6 +297,7 @@ func MainC23() {
 
 // ChildC23 is the body of the unscaled child.
 func ChildC23(sink Sink) map[string]any {
+	gcForC23()
 	pb := Params()
 	if pb.B != 32 {
 		sink.Violation("HARNESS: child not built with B=32", nil)
